@@ -1026,7 +1026,7 @@ def selftest(ctx, cases):
         c3["id"] = "corrupt-exc/" + c["id"]
         c3["cpy"]["exc"] = "KeyError" if c["cpy"]["exc"] != "KeyError" else ""
         bad.append(c3)
-        if "x" in c["cpy"]["final"]:
+        if c["cpy"]["final"].get("x", {}).get("k") == "v":      # (a recorder-valued binding is never opaque to the machine)
             c4 = copy.deepcopy(c)
             c4["id"] = "corrupt-final/" + c["id"]
             c4["cpy"]["final"]["x"] = {"k": "v", "id": 999, "b": True}
@@ -1034,7 +1034,7 @@ def selftest(ctx, cases):
     if len(bad) < 20:
         raise MachineryFailure("selftest: nothing to corrupt")
     rej = tlc_batches(ctx, bad, "corrupt", 2)
-    missed = [c["id"] + " " + repr(c["src"]) for c in bad if not any(r["who"] == "cpy" and not r["nm"] for r in rej.get(c["id"], []))]
+    missed = [c["id"] + " " + repr(c["src"]) for c in bad if not any(r["who"] == "cpy" for r in rej.get(c["id"], []))]
     if missed:
         raise MachineryFailure("selftest: %d corrupted recordings accepted: %s" % (len(missed), missed[:3]))
     ctx.cov["selftest_corruptions_rejected"] = len(bad)
@@ -1063,6 +1063,9 @@ def build_programs(ctx):
         add("table", tables, [OPTS0, QUIET])
         add("template", tpls, [OPTS0, QUIET])
     add("witness", [("witness/%d" % i, f["witness"]) for i, f in enumerate(ctx.findings) if f.get("status") == "known"], [OPTS0])
+    only = os.environ.get("VERIF_C01_FAMILIES")       # development aid (tools/c01_try_fix.sh): restrict the families
+    if only:
+        return [p for p in progs if p["fam"] in only.split(",")]
     nrand = ctx.pick(300, 20000)
     per = ctx.pick(100, 500)
     k = 0
@@ -1102,10 +1105,14 @@ def main(ctx):
     t0 = time.time()
     progs = build_programs(ctx)
     t1 = time.time()
-    cases = execute(ctx, progs, nproc=ctx.pick(5, 14))     # a worker costs ~8 s CPU of imports, the programs ~1 ms each
+    # (M) runs concurrently with the execution of the programs
+    mc, cases = parallel([lambda: None if os.environ.get("VERIF_C01_FAMILIES") else model_check(ctx),
+                          lambda: execute(ctx, progs, nproc=ctx.pick(5, 14))])   # a worker costs ~8 s CPU of imports, the programs ~1 ms each
+    if mc:
+        report_model(ctx, *mc)
     t2 = time.time()
     rej = tlc_batches(ctx, cases, "main", ctx.pick(5, 14))
-    ctx.cov["timing_s"] = {"generate": round(t1 - t0, 1), "execute_both_interpreters": round(t2 - t1, 1), "tlc_acceptor": round(time.time() - t2, 1)}
+    ctx.cov["timing_s"] = {"generate": round(t1 - t0, 1), "model_check_and_execute_both_interpreters": round(t2 - t1, 1), "tlc_acceptor": round(time.time() - t2, 1)}
     stats = new_stats()
     accepted = set(classify(ctx, cases, rej, stats))
     if stats["skipped_not_modelled"] > 0.05 * len(cases):
@@ -1118,6 +1125,7 @@ def main(ctx):
                        "protocol operation); every program is run under CPython and under pyscript and both recordings "
                        "are validated by the TLA+ acceptor")
     ctx.cov.update({k: v for k, v in stats.items()})
+    print("C01 clauses needed: %s" % json.dumps(stats["by_clause"], sort_keys=True))
     ctx.cov["families"] = {f: sum(1 for c in cases if c["fam"] == f) for f in sorted({c["fam"] for c in cases})}
     ctx.cov["events_cpython"] = sum(len(c["cpy"]["trace"]) for c in cases)
     ctx.cov["raising_programs"] = sum(1 for c in cases if c["cpy"]["exc"])
@@ -1128,7 +1136,9 @@ def main(ctx):
             if "k" in n and n["k"][0].isupper():
                 kinds[n["k"]] = kinds.get(n["k"], 0) + 1
     ctx.cov["node_kinds"] = kinds
-    if ctx.cov["distinct_nontrivial"] < 1000 or stats["masked_cases"] < 300:
+    if os.environ.get("VERIF_C01_FAMILIES"):
+        ctx.cov["restricted_families"] = os.environ["VERIF_C01_FAMILIES"]
+    elif ctx.cov["distinct_nontrivial"] < 1000 or stats["masked_cases"] < 300:
         raise MachineryFailure("vacuous coverage: %s" % stats)
     for c in [c for c in cases if c["fam"] == "random" and c["id"] in accepted][:2] + [c for c in cases if c["fam"] == "template"][:1]:
         ctx.sample({"src": c["src"], "opts": c["opts"], "events": len(c["cpy"]["trace"]), "exc": c["cpy"]["exc"]})
@@ -1139,3 +1149,117 @@ def main(ctx):
         "programs whose CPython run applies a primitive to two plain (non-recorder) values in a way the machine cannot decide are skipped (not-modelled), counted in skipped_not_modelled",
         "generator expressions only as the sole argument of list/tuple/set (eager consumption)",
     ]
+
+
+# ------------------------------------------------------------------ (M) the machine itself, explored by TLC
+SK_SUB = ["(# + #)", "(-#)", "(# and #)", "(# or #)", "(# if # else #)", "(# < #)", "(# < # < #)", "#[#]",
+          "g(#, k=#)", "[#, #]", "(not #)"]
+SK_TOP = ["x = " + e for e in SK_SUB + [
+    "#[#:#]", "#.p", "g(#)", "g(*#)", "g(#, *#)", "g(**#)", "g(#, **#, j=#)", "{#: #}", "{#: #, #: #}", "{#, #}", "(#, #)",
+    "[*#, #]", "[# for v in #]", "[# for v in # if #]", "{#: # for v in #}", "[# for v in # for w in #]",
+    "[# for v in # if # if #]", "f'{#}{#!r}'", "f'{#:{#}}'", "(y := #)", "(# in #)", "(# is #)", "(# < # in #)",
+    "(# if # else # if # else #)", "(# and (# or #) and #)"]] + [
+    "#[#] = #", "#.p = #", "x, y = #", "x, *y = #", "x = y = #", "x = #[#] = #", "#[#] += #", "#.p += #",
+    "x = #\nx += #", "del #[#]", "del #.p", "del #[#], #[#]", "x, #[#] = #, #", "#[#], #.p = #"]
+
+
+def _number(src):
+    out, k = [], 0
+    for ch in src:
+        if ch == "#":
+            k += 1
+            out.append("t(%d)" % k)
+        else:
+            out.append(ch)
+    return "".join(out)
+
+
+def eval_order(tree):
+    """Independent statement of Python's evaluation-order rule on the ast: list of (leaf number, in loop)."""
+    out = []
+
+    def go(n, loop):
+        if isinstance(n, ast.Call) and isinstance(n.func, ast.Name) and n.func.id == "t":
+            out.append((n.args[0].value, loop))
+        elif isinstance(n, (ast.ListComp, ast.SetComp, ast.GeneratorExp, ast.DictComp)):
+            for i, g in enumerate(n.generators):
+                go(g.iter, loop or i > 0)          # the first iterable is evaluated once, outside the loop
+                go(g.target, True)
+                for c in g.ifs:
+                    go(c, True)
+            if isinstance(n, ast.DictComp):
+                go(n.key, True)
+                go(n.value, True)
+            else:
+                go(n.elt, True)
+        elif isinstance(n, ast.Dict):
+            for k, v in zip(n.keys, n.values):
+                if k is not None:
+                    go(k, loop)
+                go(v, loop)
+        elif isinstance(n, ast.Assign):
+            go(n.value, loop)
+            for t in n.targets:
+                go(t, loop)
+        elif isinstance(n, ast.FormattedValue):
+            go(n.value, loop)
+            if n.format_spec is not None:
+                go(n.format_spec, loop)
+        elif isinstance(n, ast.AST):
+            for c in ast.iter_child_nodes(n):      # field order = source order for the remaining nodes
+                go(c, loop)                        # (IfExp: test, body, orelse; AugAssign: target, value; Call: func, args, keywords)
+    go(tree, False)
+    return out
+
+
+def gen_skeletons(ctx):
+    from pyvalues import final_bindings, make_env
+    srcs = [_number(s) for s in SK_TOP]
+    deep = []
+    for top in SK_TOP:
+        pos = [i for i, ch in enumerate(top) if ch == "#"]
+        for p in pos:
+            for sub in SK_SUB:
+                deep.append(_number(top[:p] + sub + top[p + 1:]))
+    if ctx.quick:
+        deep = random.Random(ctx.seed).sample(deep, 20)
+    _, env = make_env(OPTS0)
+    env0 = final_bindings(env)
+    sk = []
+    for i, src in enumerate(srcs + deep):
+        tree = ast.parse(src)
+        order = eval_order(tree)
+        plain = sum(len(g.iter.elts) for n in ast.walk(tree) if isinstance(n, (ast.ListComp, ast.SetComp, ast.DictComp))
+                    for g in n.generators if isinstance(g.iter, (ast.List, ast.Tuple)))
+        sk.append({"id": i, "src": src, "body": [conv(s) for s in tree.body], "env0": env0, "plainiter": plain,
+                   "leaves": [{"n": n, "rank": r + 1, "loop": lp} for r, (n, lp) in enumerate(order)]})
+    return sk
+
+
+def model_check(ctx):
+    """returns list of (label, TLCResult)"""
+    sk = gen_skeletons(ctx)
+    path = os.path.join(ctx.scratch, "c01_skels.json")
+    json.dump(sk, open(path, "w"))
+    jopts = "-Xss256m -XX:ParallelGCThreads=2"
+    runs = [("Theorems", "PyExprMC.cfg")]
+    for w in ("Witness_NoMidRaise", "Witness_NoShortCircuit", "Witness_NoLoopTwice"):
+        cfg = os.path.join(ctx.scratch, "PyExprMC_%s.cfg" % w)
+        open(cfg, "w").write("SPECIFICATION Spec\nINVARIANT %s\nCHECK_DEADLOCK FALSE\n" % w)
+        runs.append((w, cfg))
+    res = parallel([(lambda c=c, l=l: tlc.run("PyExprMC", c, ctx.scratch, workers=4 if l == "Theorems" else 1, timeout=3000,
+                                               env={"SKELS": path, "JAVA_TOOL_OPTIONS": jopts})) for l, c in runs], max_workers=4)
+    return sk, list(zip([l for l, _ in runs], res))
+
+
+def report_model(ctx, sk, results):
+    for label, res in results:
+        if label == "Theorems":
+            ctx.add_tlc(res, "PyExprMC: machine theorems on %d skeletons (depth <= 2)" % len(sk))
+            if not res.ok:
+                raise MachineryFailure("PyExprMC: machine theorem violated (%s):\n%s" % (res.violated, (res.cex or "")[:3000]))
+        elif res.ok:
+            raise MachineryFailure("PyExprMC: witness %s holds - the exploration never exercises the case" % label)
+    ctx.cov["model_skeletons"] = len(sk)
+    ctx.cov["model_theorems"] = ["NoStuck", "AtMostOnce", "InOrder", "InOrderLoop", "RaiseLast", "NoSpontaneous"]
+    ctx.cov["model_witnesses_violated_as_expected"] = 3
